@@ -206,6 +206,17 @@ def run(ctx):
             open(inp2, "wb").write(mutate(rng, base_file(rng)[2])[0])
             args += [inp2]; otag = "two-files"
         jobs.append(dict(i=i, args=args, tag=tag, otag=otag, fmt=fmt, out=out, inp=inp))
+    # huge user penalties (at and beyond FLT_MAX) on inputs in which a terminal gap cannot be avoided (a sequence of a single residue next to longer
+    # ones): each of the three penalties must either be rejected with a message or lead to a valid alignment
+    for k, (opt, val) in enumerate([(o, v) for o in ("--gpo", "--gpe", "--tgpe") for v in (["1e39", "inf", "3e38"] if ctx.quick else ["1e39", "inf", "3e38", "1e38", "3.4e38", "1e31", "999999", "1000001"])]):
+        i = N + 200 + k
+        kind_ = ["protein", "dna"][k % 2]
+        recs = gen.family(rng, kind_, rng.randint(2, 4), rng.choice([12, 40]), spice=False)
+        recs.insert(rng.randint(0, len(recs)), ("one", rng.choice("ACGT") if kind_ == "dna" else rng.choice("LKE")))
+        inp = os.path.join(sc, "c05_%d.in" % i)
+        open(inp, "w").write(gen.fasta_text(recs))
+        out = os.path.join(sc, "c05_%d.out" % i)
+        jobs.append(dict(i=i, args=["-i", inp, "-o", out, "-f", "fasta", "-n", str(rng.choice([1, 4])), opt, val], tag="single-residue+huge-penalty", otag="penalty", fmt="fasta", out=out, inp=inp))
     # capacity boundaries of the sequence array (grown in steps of 512) and of the writers' line table (grown in steps of 1024 lines):
     # record counts around 512/1024 in the first of several files, and outputs whose line count lands exactly on a table boundary
     for k, nrec in enumerate([511, 512, 513, 1024] if ctx.quick else [510, 511, 512, 513, 1023, 1024, 1025, 1536, 2048]):
